@@ -44,7 +44,9 @@ Path(fin) == [k \in 1 .. Len(fin.ev) |-> fin.ev[k].i]
 CaseRec(fam, prog, regs0, img, memSize, fin, focusRegs, focusAddrs, tags, extra) ==
   [ fam |-> fam, prog |-> prog, regs0 |-> IntRegs(regs0), img |-> img, memSize |-> memSize,
     exp |-> [ status |-> fin.status, regs |-> IntRegs(fin.regs), mem |-> fin.mem, n |-> fin.n,
-              cyc1 |-> fin.cyc1, pcs |-> [k \in 1 .. Len(fin.ev) |-> fin.ev[k].i],
+              cyc1 |-> fin.cyc1, cyc2 |-> fin.cyc2,
+              \* MVP-3 writes every resident data line back when the run ends
+              cyc3 |-> fin.cyc3 + LatMem * Len(fin.l1d3), pcs |-> [k \in 1 .. Len(fin.ev) |-> fin.ev[k].i],
               addrs |-> [k \in 1 .. Len(fin.ev) |-> fin.ev[k].a] ],
     focusRegs |-> focusRegs, focusAddrs |-> focusAddrs, tags |-> tags, extra |-> extra ]
 =======================================================================
